@@ -51,7 +51,7 @@ func (c *countCtx) polls() int {
 	return c.n
 }
 
-var stubNames = []string{"probe", "id", "probe2", "probe3", "vprobe", "fv", "typed", "typed2", "vtyped", "boom", "zero", "two", "eachcb", "callcb0", "cbv", "panicwith"}
+var stubNames = []string{"probe", "id", "probe2", "probe3", "vprobe", "fv", "typed", "typed2", "vtyped", "boom", "zero", "two", "eachcb", "callcb0", "cbv", "panicwith", "panicctx"}
 
 // vmResult is one run of a parsed program on the real interpreter.
 type vmResult struct {
@@ -100,6 +100,17 @@ func defineStubs(e *env.Env, tr func(interface{})) {
 	must(e.Define("boom", func() { panic("boom") }))
 	// a host function that panics with the value it is given (a non-error value, possibly with an empty text)
 	must(e.Define("panicwith", func(x interface{}) { panic(x) }))
+	// a host function that fails with one of the context package's errors (a timeout of its OWN, not of the run)
+	must(e.Define("panicctx", func(kind string) {
+		switch kind {
+		case "deadline":
+			panic(context.DeadlineExceeded)
+		case "canceled":
+			panic(context.Canceled)
+		default:
+			panic(fmt.Errorf("fetch failed: %w", context.DeadlineExceeded))
+		}
+	}))
 	// host functions that call a script function back: without results, and with one
 	must(e.Define("eachcb", func(xs []interface{}, cb func(interface{})) {
 		for _, x := range xs {
